@@ -38,12 +38,23 @@ fn generate_fvar(static_metadata: &StaticMetadata) -> Option<Fvar> {
     // Reuse an existing name record if possible (and allowed by the spec)
     let reverse_names = static_metadata.reverse_names();
     let min_font_specific_name_id = NameId::new(256);
-    let reusable_name_id = |name: &str, allow_reserved: bool| {
-        reverse_names
-            .get(name)
-            .unwrap()
-            .iter()
-            .find(|&&name_id| allow_reserved || name_id >= min_font_specific_name_id)
+    let reusable_name_id = |name: &str, allow_subfamily: bool| {
+        let name_ids = reverse_names.get(name).unwrap();
+        // The smallest existing nameID may be reused only if it is 2 or 17 (and the caller
+        // allows it); any other spec-reserved nameID (family, full name, ...) must not be
+        // referenced from fvar, so fall back to the first font-specific one.
+        name_ids
+            .first()
+            .filter(|&&name_id| {
+                allow_subfamily
+                    && (name_id == NameId::SUBFAMILY_NAME
+                        || name_id == NameId::TYPOGRAPHIC_SUBFAMILY_NAME)
+            })
+            .or_else(|| {
+                name_ids
+                    .iter()
+                    .find(|&&name_id| name_id >= min_font_specific_name_id)
+            })
             .cloned()
             .unwrap()
     };
